@@ -50,7 +50,7 @@ def scenarios(c):
     scheduling point), page-boundary and ring-wrap cases; plus seeded random schedules."""
     rng = c.rng
     q = c.tier == "quick"
-    lim = 3000 if q else 40000
+    lim = 1200 if q else 40000
     S = []
     # --- UnboundedSingleQueue
     for n in range(0, 7):
